@@ -27,7 +27,7 @@ def ops : List String := ["c01", "c01isa"]
 
 structure Carrier (α : Type) where
   zero : α
-  add : α → α → α       -- the scalar `+=` of the generic code (release build: wrapping for `u8`)
+  add : α → α → α       -- `Accumulate::accumulate` of the generic code (`+` for f32, `saturating_add` for u8)
   addSat : α → α → α    -- the lane operation of the AVX2 kernel (`adds_epu8` for `u8`, `add_ps` for `f32`)
   ofNat : Nat → α
   toNat : α → Nat
@@ -35,7 +35,7 @@ structure Carrier (α : Type) where
 def f32 : Carrier Float32 :=
   ⟨Float32.ofBits 0, (· + ·), (· + ·), fun n => Float32.ofBits n.toUInt32, fun x => x.toBits.toNat⟩
 
-def u8 : Carrier Nat := ⟨0, u8Wrap, u8Sat, fun n => n % 256, id⟩
+def u8 : Carrier Nat := ⟨0, u8Sat, u8Sat, fun n => n % 256, id⟩
 
 /-- `Util.fnvNats` (FNV-1a over 8 little-endian bytes per number) without the intermediate lists -/
 def fnv1 (h : UInt64) (x : UInt64) : UInt64 :=
